@@ -29,7 +29,7 @@ ENC = (('BER', ber_encoder.encode), ('CER', cer_encoder.encode), ('DER', der_enc
 
 
 def plan(tier, seed):
-    return C.plan_counts(tier, 16 * 9000, 16 * 120000)
+    return C.plan_counts(tier, 16 * 18000, 16 * 120000)
 
 
 def native_ok(T, v):
@@ -89,6 +89,26 @@ def approx_equal(T, a, b):
     return U.canon(T, a) == U.canon(T, b)
 
 
+def huge_real_default_anywhere(T):
+    """Does the type declare, at any depth, a DEFAULT holding a REAL beyond float range (wherever the value may
+    lack the enclosing component)?"""
+    k = T[0]
+    if k == 'tag':
+        return huge_real_default_anywhere(T[4])
+    if k in ('seq', 'set'):
+        for name, ft, pres, dv in T[1]:
+            if pres == 'def' and not native_ok(ft, dv):
+                return True
+            if huge_real_default_anywhere(ft):
+                return True
+        return False
+    if k in ('seqof', 'setof'):
+        return huge_real_default_anywhere(T[1])
+    if k == 'choice':
+        return any(huge_real_default_anywhere(at) for _, at in T[1])
+    return False
+
+
 def check_case(res, T, v, bt=None):
     bt = bt or C.try_build(res, T, v)
     if bt is None:
@@ -97,6 +117,11 @@ def check_case(res, T, v, bt=None):
     res.case(U.case_hash(T, bt.cv), U.base_of(T)[0] not in U.SIMPLE)
     if not native_ok(T, v) or 'default-real-huge' in feats0:
         res.see('skipped:real-outside-float-range')
+        return
+    if 'absent-optional-emptyable-record' in feats0 and huge_real_default_anywhere(T):
+        # the pinned emptyable-optional finding materialises the absent record, DEFAULTs included: the value then
+        # holds a REAL no float can represent, which the native form (a float) is not expected to carry
+        res.see('skipped:huge-real-default-inside-a-record-the-pinned-finding-materialises')
         return
     # ---- arm 1: native round trip
     case = ('c17', T, v, 'native')
